@@ -4,11 +4,11 @@ package main
 // outcome class, abstracted return value and (optionally) the key-space audit.
 
 import (
-	"math"
 	"bytes"
 	"encoding/json"
 	"errors"
 	"fmt"
+	"math"
 	"os"
 	"path/filepath"
 	"regexp"
@@ -273,7 +273,8 @@ type Exec struct {
 	U        *Universe
 	Backends []*Backend
 	FileDir  string
-	Gate     *gate // when set, an UpdateFunc event carrying "gate" holds its transaction open at its first callback
+	qcache   map[string]*query.Query // query values kept across calls (sequential drivers only)
+	Gate     *gate                   // when set, an UpdateFunc event carrying "gate" holds its transaction open at its first callback
 }
 
 // gate turns the update callback of one operation into a scheduling point: the operation signals
@@ -296,12 +297,105 @@ func (x *Exec) alphaDoc(d *document.Document) V {
 	return x.U.Alpha(d.ToMap())
 }
 
+// alphaRead abstracts a document that a read handed to the caller, and then behaves like a caller who owns it:
+// it looks at the document through every accessor (they are views of one value: a disagreement is logged as
+// harm) and afterwards overwrites it, nested containers included, so that a later call which still shares
+// memory with it would read the scribble.
+func (x *Exec) alphaRead(res E, d *document.Document) V {
+	v := x.alphaDoc(d)
+	if d == nil {
+		return v
+	}
+	if why := x.viewsDisagree(d, v); why != "" && res["harm"] == nil {
+		res["harm"] = "accessors of a returned document disagree: " + why
+	}
+	scribbleDoc(d)
+	return v
+}
+
+func (x *Exec) viewsDisagree(d *document.Document, v V) (why string) {
+	defer func() {
+		if r := recover(); r != nil {
+			why = fmt.Sprint("panic: ", r)
+		}
+	}()
+	same := func(a, b V) bool { return fmt.Sprint(a) == fmt.Sprint(b) }
+	if !same(x.U.Alpha(d.AsMap()), v) {
+		return "AsMap"
+	}
+	if !same(x.U.Alpha(d.Copy().ToMap()), v) {
+		return "Copy"
+	}
+	m := d.ToMap()
+	top := d.Fields(false)
+	if len(top) != len(m) {
+		return "Fields"
+	}
+	for _, f := range top {
+		mv, ok := m[f]
+		if !ok {
+			return "Fields"
+		}
+		if strings.Contains(f, ".") {
+			continue // Get and Has read a dotted name as a path
+		}
+		if !d.Has(f) || !same(x.U.Alpha(d.Get(f)), x.U.Alpha(mv)) {
+			return "Get " + f
+		}
+	}
+	if id, _ := m["_id"].(string); id != d.ObjectId() {
+		return "ObjectId"
+	}
+	exp, isTime := m["_expiresAt"].(time.Time)
+	if _, dotted := m["_expiresAt"]; dotted || !strings.Contains(strings.Join(top, " "), "_expiresAt.") {
+		switch e := d.ExpiresAt(); {
+		case isTime && (e == nil || !e.Equal(exp)), !isTime && e != nil:
+			return "ExpiresAt"
+		}
+		switch ttl := d.TTL(); {
+		case !isTime && ttl != -1, isTime && exp.Before(time.Now().Add(-time.Second)) && ttl != 0, isTime && exp.After(time.Now().Add(time.Second)) && ttl <= 0:
+			return "TTL"
+		}
+	}
+	return ""
+}
+
+func scribbleDoc(d *document.Document) {
+	defer func() { recover() }()
+	var walk func(v interface{})
+	walk = func(v interface{}) {
+		switch t := v.(type) {
+		case map[string]interface{}:
+			for k, e := range t {
+				walk(e)
+				t[k] = "scribble"
+			}
+			t["scribble"] = int64(1)
+		case []interface{}:
+			for i, e := range t {
+				walk(e)
+				t[i] = "scribble"
+			}
+		}
+	}
+	for _, f := range d.Fields(false) {
+		if strings.Contains(f, ".") {
+			continue
+		}
+		walk(d.Get(f))
+		d.Set(f, "scribble")
+	}
+	d.Set("scribble", true)
+}
+
 func str(x interface{}) string { return string(toBytes(x)) }
 
 var namedFns = map[string]func(f string) func(*document.Document) bool{
 	"true":  func(string) func(*document.Document) bool { return func(*document.Document) bool { return true } },
 	"false": func(string) func(*document.Document) bool { return func(*document.Document) bool { return false } },
-	"has":   func(f string) func(*document.Document) bool { return func(d *document.Document) bool { return d.Has(f) } },
+	"has": func(f string) func(*document.Document) bool {
+		return func(d *document.Document) bool { return d.Has(f) }
+	},
 	"isnum": func(f string) func(*document.Document) bool {
 		return func(d *document.Document) bool {
 			switch d.Get(f).(type) {
@@ -429,6 +523,25 @@ func windowArg(n int) int {
 	return n
 }
 
+// query returns the query value of an event.  Sequential drivers keep the values they built: a caller may use
+// one Query (and its Criteria) for any number of calls, on any number of handles, and each call must read it as
+// the first one did - state that a call leaves inside the value, invisible to the fingerprint of its public
+// accessors, shows in the results of the calls that follow.
+func (x *Exec) query(e E) *query.Query {
+	if x.qcache == nil {
+		return x.gammaQuery(e)
+	}
+	k, _ := json.Marshal([]interface{}{e["c"], e["q"]})
+	if q, ok := x.qcache[string(k)]; ok {
+		return q
+	}
+	q := x.gammaQuery(e)
+	if len(x.qcache) < 4096 {
+		x.qcache[string(k)] = q
+	}
+	return q
+}
+
 func (x *Exec) gammaQuery(e E) *query.Query {
 	q := query.NewQuery(unescName(e["c"].(string)))
 	for _, b := range toList(e["q"]) {
@@ -506,12 +619,14 @@ func queryFingerprint(q *query.Query) string {
 // ill-formed dump files: none of them is a JSON array of objects
 var badFiles = []string{
 	"[{\"a\": 1}, {oops",
-	"[{\"_id\":\"00000000-0000-4000-8000-0000000000aa\",\"x\":1}",  // cut after a complete document
-	"[",                                                                // cut after the opening bracket
+	"[{\"_id\":\"00000000-0000-4000-8000-0000000000aa\",\"x\":1}", // cut after a complete document
+	"[", // cut after the opening bracket
 	"[{\"_id\":\"00000000-0000-4000-8000-0000000000aa\",\"x\":1},", // cut after a comma
-	"{\"_id\":\"00000000-0000-4000-8000-0000000000aa\"}",             // an object, not an array
-	"",                                                                 // empty
-	"[1, 2]",                                                           // an array of non-objects
+	"{\"_id\":\"00000000-0000-4000-8000-0000000000aa\"}",           // an object, not an array
+	"",       // empty
+	"[1, 2]", // an array of non-objects
+	"[{\"_id\":\"00000000-0000-4000-8000-0000000000aa\",\"x\":1}, null]", // a document and a null
+	"[null]",
 	"[{\"_id\":\"00000000-0000-4000-8000-0000000000aa\",\"x\":1}, {\"_id\":\"00000000-0000-4000-8000-0000000000ab\"}", // two documents, no closing bracket
 }
 
@@ -598,7 +713,7 @@ func (x *Exec) updater(u []interface{}) func(*document.Document) *document.Docum
 
 type recTx struct{ key []byte }
 
-func (t *recTx) Set(key, value []byte) error              { t.key = append([]byte(nil), key...); return nil }
+func (t *recTx) Set(key, value []byte) error               { t.key = append([]byte(nil), key...); return nil }
 func (t *recTx) Get(key []byte) ([]byte, error)            { return nil, nil }
 func (t *recTx) Delete(key []byte) error                   { return nil }
 func (t *recTx) Cursor(forward bool) (store.Cursor, error) { return nil, errors.New("no cursor") }
@@ -790,28 +905,29 @@ func (x *Exec) Audit(b *Backend) (res E) {
 
 func (x *Exec) filePath(p interface{}) string { return filepath.Join(x.FileDir, p.(string)) }
 
-func optDoc(x *Exec, d *document.Document) []interface{} {
+func optDoc(x *Exec, res E, d *document.Document) []interface{} {
 	if d == nil {
 		return []interface{}{}
 	}
-	return []interface{}{x.alphaDoc(d)}
+	return []interface{}{x.alphaRead(res, d)}
 }
 
-func (x *Exec) alphaDocs(ds []*document.Document) []interface{} {
+func (x *Exec) alphaDocs(res E, ds []*document.Document) []interface{} {
 	out := make([]interface{}, 0, len(ds))
+	// a document of the result that shares memory with an earlier one is read after that one was scribbled over
 	for _, d := range ds {
-		out = append(out, x.alphaDoc(d))
+		out = append(out, x.alphaRead(res, d))
 	}
 	return out
 }
 
 // forEachStop runs ForEach with a consumer that returns false at its j-th call (j = 0: never).
-func (x *Exec) forEachStop(db *clover.DB, q *query.Query, j int) ([]interface{}, error) {
+func (x *Exec) forEachStop(res E, db *clover.DB, q *query.Query, j int) ([]interface{}, error) {
 	visits := make([]interface{}, 0)
 	n := 0
 	err := db.ForEach(q, func(d *document.Document) bool {
 		n++
-		visits = append(visits, x.alphaDoc(d))
+		visits = append(visits, x.alphaRead(res, d))
 		return !(j > 0 && n >= j)
 	})
 	return visits, err
@@ -873,6 +989,10 @@ func (x *Exec) Run(b *Backend, e E, genIds [][]byte) E {
 						res["harm"] = "a document passed to " + op + " reads differently after the call"
 					}
 				}
+				// ... and the caller may go on using them
+				for _, d := range docs {
+					scribbleDoc(d)
+				}
 			}()
 			var err error
 			switch op {
@@ -902,12 +1022,12 @@ func (x *Exec) Run(b *Backend, e E, genIds [][]byte) E {
 				pl := toList(p)
 				m[str(pl[0])] = x.U.Gamma(toV(pl[1]))
 			}
-			return db.Update(x.gammaQuery(e), m)
+			return db.Update(x.query(e), m)
 		case "UpdateFunc":
 			inner := x.updater(toList(e["upd"]))
 			calls := make([]interface{}, 0)
 			_, gated := e["gate"]
-			err := db.UpdateFunc(x.gammaQuery(e), func(d *document.Document) *document.Document {
+			err := db.UpdateFunc(x.query(e), func(d *document.Document) *document.Document {
 				if gated && x.Gate != nil {
 					x.Gate.once.Do(func() {
 						close(x.Gate.started)
@@ -920,7 +1040,7 @@ func (x *Exec) Run(b *Backend, e E, genIds [][]byte) E {
 			res["calls"] = calls
 			return err
 		case "Delete":
-			return db.Delete(x.gammaQuery(e))
+			return db.Delete(x.query(e))
 		case "DeleteById":
 			return db.DeleteById(coll, str(e["id"]))
 		case "CreateIndex":
@@ -941,32 +1061,32 @@ func (x *Exec) Run(b *Backend, e E, genIds [][]byte) E {
 			return err
 		case "FindById":
 			d, err := db.FindById(coll, str(e["id"]))
-			res["val"] = optDoc(x, d)
+			res["val"] = optDoc(x, res, d)
 			return err
 		case "FindAll":
-			q := x.gammaQuery(e)
+			q := x.query(e)
 			fp := queryFingerprint(q)
 			ds, err := db.FindAll(q)
-			res["val"] = x.alphaDocs(ds)
+			res["val"] = x.alphaDocs(res, ds)
 			res["qfp"] = []interface{}{fp, queryFingerprint(q)}
 			return err
 		case "ForEach":
-			q := x.gammaQuery(e)
+			q := x.query(e)
 			fp := queryFingerprint(q)
-			visits, err := x.forEachStop(db, q, toInt(e["j"]))
+			visits, err := x.forEachStop(res, db, q, toInt(e["j"]))
 			res["val"] = visits
 			res["qfp"] = []interface{}{fp, queryFingerprint(q)}
 			return err
 		case "IterateDocs":
 			// the consumer returns an error at its j-th call (j = 0: never); the criteria are
 			// not normalised by this entry point
-			q := x.gammaQuery(e)
+			q := x.query(e)
 			fp := queryFingerprint(q)
 			visits := make([]interface{}, 0)
 			j, n := toInt(e["j"]), 0
 			err := db.IterateDocs(q, func(d *document.Document) error {
 				n++
-				visits = append(visits, x.alphaDoc(d))
+				visits = append(visits, x.alphaRead(res, d))
 				if j > 0 && n >= j {
 					return errConsumer
 				}
@@ -976,35 +1096,35 @@ func (x *Exec) Run(b *Backend, e E, genIds [][]byte) E {
 			res["qfp"] = []interface{}{fp, queryFingerprint(q)}
 			return err
 		case "FindFirst":
-			q := x.gammaQuery(e)
+			q := x.query(e)
 			fp := queryFingerprint(q)
 			d, err := db.FindFirst(q)
-			res["val"] = optDoc(x, d)
+			res["val"] = optDoc(x, res, d)
 			res["qfp"] = []interface{}{fp, queryFingerprint(q)}
 			return err
 		case "Count":
-			q := x.gammaQuery(e)
+			q := x.query(e)
 			fp := queryFingerprint(q)
 			n, err := db.Count(q)
 			res["val"] = n
 			res["qfp"] = []interface{}{fp, queryFingerprint(q)}
 			return err
 		case "Exists":
-			q := x.gammaQuery(e)
+			q := x.query(e)
 			fp := queryFingerprint(q)
 			v, err := db.Exists(q)
 			res["val"] = v
 			res["qfp"] = []interface{}{fp, queryFingerprint(q)}
 			return err
 		case "Derived":
-			q := x.gammaQuery(e)
+			q := x.query(e)
 			fp := queryFingerprint(q)
 			val := E{}
 			all, err := db.FindAll(q)
 			if err != nil {
 				return err
 			}
-			val["all"] = x.alphaDocs(all)
+			val["all"] = x.alphaDocs(res, all)
 			n, err := db.Count(q)
 			if err != nil {
 				return err
@@ -1020,14 +1140,14 @@ func (x *Exec) Run(b *Backend, e E, genIds [][]byte) E {
 				if err != nil {
 					return err
 				}
-				val["first"] = optDoc(x, first)
+				val["first"] = optDoc(x, res, first)
 			} else {
 				val["exists"] = false
 				val["first"] = []interface{}{}
 			}
 			fes := make([]interface{}, 0)
 			for _, j := range toList(e["js"]) {
-				visits, err := x.forEachStop(db, q, toInt(j))
+				visits, err := x.forEachStop(res, db, q, toInt(j))
 				if err != nil {
 					return err
 				}
@@ -1040,7 +1160,7 @@ func (x *Exec) Run(b *Backend, e E, genIds [][]byte) E {
 				if err != nil {
 					return err
 				}
-				byid = append(byid, []interface{}{B(str(id)), optDoc(x, d)})
+				byid = append(byid, []interface{}{B(str(id)), optDoc(x, res, d)})
 			}
 			val["byid"] = byid
 			res["val"] = val
@@ -1094,7 +1214,7 @@ func (x *Exec) Run(b *Backend, e E, genIds [][]byte) E {
 		case "Import":
 			return db.ImportCollection(coll, x.filePath(e["path"])+"."+b.Name)
 		case "CreateByQuery":
-			return db.CreateCollectionByQuery(unescName(e["name"].(string)), x.gammaQuery(e))
+			return db.CreateCollectionByQuery(unescName(e["name"].(string)), x.query(e))
 		case "Close":
 			err := db.Close()
 			b.open = false
